@@ -27,6 +27,10 @@ fn usage() -> ! {
     std::process::exit(2);
 }
 
+pub fn out_dir() -> String {
+    std::env::var("VSIM_OUT").unwrap_or_else(|_| "/verif".into())
+}
+
 fn seed() -> u64 {
     std::env::var("VERIF_SEED")
         .ok()
@@ -120,8 +124,9 @@ fn main() {
 pub fn lanes_for(prop: &str, tier: &str, seed: u64) -> Vec<Scenario> {
     let thorough = tier == "thorough";
     let mut v: Vec<Scenario> = vec![];
-    let n_rand_lib = if thorough { 400_000 } else { 6_000 };
-    let n_rand_cli = if thorough { 30_000 } else { 500 };
+    // (the thorough tier adds further random chunks on top, see `extra_chunk`)
+    let n_rand_lib = 6_000;
+    let n_rand_cli = 500;
     match prop {
         "C05" => {
             v.extend(gen::lane_fates(Tier::Lib, seed));
@@ -175,14 +180,63 @@ pub fn lanes_for(prop: &str, tier: &str, seed: u64) -> Vec<Scenario> {
     v
 }
 
+/// thorough tier: chunk number `k` (0-based) of additional random scenarios
+fn extra_chunk(prop: &str, seed: u64, k: usize) -> Vec<Scenario> {
+    let lib = 60_000;
+    let cli = 6_000;
+    let mut v = vec![];
+    let (use_lib, use_cli) = match prop {
+        "C18" | "C20" => (false, true),
+        "C13" => (true, false),
+        _ => (true, true),
+    };
+    if use_lib {
+        v.extend(gen_cli::lane_random_from(Tier::Lib, seed, 6_000 + k * lib, lib, prop));
+    }
+    if use_cli {
+        let n = if use_lib { cli } else { cli * 2 };
+        v.extend(gen_cli::lane_random_from(Tier::Cli, seed, 2_000 + k * n, n, prop));
+    }
+    if prop == "C12" {
+        v.extend(gen_cli::lane_state(seed ^ (k as u64 + 1).wrapping_mul(0x9e37), 20_000));
+    }
+    v
+}
+
 fn check(prop: &str, tier: &str) -> i32 {
     let t0 = wall();
     let seed = seed();
     println!("vsim: property={} tier={} VERIF_SEED={} threads={}", prop, tier, seed, threads());
     let known = known::load();
-    let scenarios = Arc::new(lanes_for(prop, tier, seed));
-    println!("vsim: {} scenarios", scenarios.len());
-    let (outcomes, mut stats) = run_batch(scenarios.clone(), threads(), 3);
+    let first = Arc::new(lanes_for(prop, tier, seed));
+    println!("vsim: {} scenarios", first.len());
+    let (first_outcomes, mut stats) = run_batch(first.clone(), threads(), 3);
+    // keep only what the triage below needs: scenarios with a violation or a harness error
+    let mut scenarios: Vec<Scenario> = vec![];
+    let mut outcomes: Vec<Outcome> = vec![];
+    let mut keep = |batch: &Arc<Vec<Scenario>>, outs: Vec<Outcome>, scenarios: &mut Vec<Scenario>, outcomes: &mut Vec<Outcome>| {
+        for mut o in outs {
+            if o.violations.iter().any(|v| v.property == prop) || o.harness_error.is_some() {
+                scenarios.push(batch[o.idx].clone());
+                o.idx = scenarios.len() - 1;
+                outcomes.push(o);
+            }
+        }
+    };
+    keep(&first, first_outcomes, &mut scenarios, &mut outcomes);
+    drop(first);
+    if tier == "thorough" {
+        let budget = std::env::var("VSIM_THOROUGH_SECS").ok().and_then(|s| s.parse::<f64>().ok()).unwrap_or(900.0);
+        let mut k = 0;
+        while t0.elapsed().as_secs_f64() < budget && k < 200 && outcomes.len() < 5_000 {
+            let chunk = Arc::new(extra_chunk(prop, seed, k));
+            let (o, st) = run_batch(chunk.clone(), threads(), 0);
+            stats.merge(st);
+            keep(&chunk, o, &mut scenarios, &mut outcomes);
+            k += 1;
+        }
+        println!("vsim: thorough: {} additional random chunk(s)", k);
+    }
 
     // the real-bash tier (C12 carrier, C13 stub conformance)
     let mut real_report = None;
@@ -233,7 +287,7 @@ fn check(prop: &str, tier: &str) -> i32 {
         by_class.entry(v.class.clone()).or_default().push((i, v));
     }
     let mut n_viol = 0;
-    let _ = std::fs::create_dir_all("/verif/replays");
+    let _ = std::fs::create_dir_all(format!("{}/replays", crate::out_dir()));
     for (class, items) in &by_class {
         let (idx, v) = &items[0];
         println!("vsim: {} x {}/{} - first in lane {}: {}", items.len(), prop, class, scenarios[*idx].lane, v.detail);
@@ -255,7 +309,7 @@ fn check(prop: &str, tier: &str) -> i32 {
         };
         let text = serde_json::to_string_pretty(&rf).unwrap();
         let h = fnv(text.as_bytes());
-        let path = format!("/verif/replays/{}-{}-{:08x}.json", prop, class, h as u32);
+        let path = format!("{}/replays/{}-{}-{:08x}.json", crate::out_dir(), prop, class, h as u32);
         if let Err(e) = std::fs::write(&path, &text) {
             println!("HARNESS-ERROR: cannot write {}: {}", path, e);
             exit = 2;
@@ -481,7 +535,7 @@ fn write_evidence(
     wall_s: f64,
     real: &Option<real::RealReport>,
 ) {
-    let _ = std::fs::create_dir_all("/verif/evidence");
+    let _ = std::fs::create_dir_all(format!("{}/evidence", out_dir()));
     let runs_per_hour = if wall_s > 0.0 { st.runs as f64 / wall_s * 3600.0 } else { 0.0 };
     let components = serde_json::json!({
         "real code": ["StatefulExecutor", "BashScriptExecutor", "BashRunner (template substitution)", "SubprocessRunner", "TestCase::validate / render_output", "DiffTool", "config merge",
@@ -525,6 +579,6 @@ fn write_evidence(
         "wall_s": wall_s,
         "violations": violations,
     });
-    let path = format!("/verif/evidence/{}.json", prop);
+    let path = format!("{}/evidence/{}.json", out_dir(), prop);
     let _ = std::fs::write(&path, serde_json::to_string_pretty(&ev).unwrap());
 }
